@@ -206,7 +206,7 @@ func Corpus(rng *rand.Rand, r CorpusSizes) []Input {
 	lenVariants := func(n int) []uint32 {
 		return []uint32{0, 1, 3, 7, 8, 9, 10, 11, uint32(n - 1), uint32(n + 1), uint32(n + 1000), 0xffffffff, 0x80000000, 0xfffffffe, 0xffff0000}
 	}
-	perBase := r.n(6, 40)
+	perBase := r.n(5, 40)
 	for _, b := range bases {
 		n := len(b.payload)
 		lv := lenVariants(n)
@@ -258,7 +258,7 @@ func Corpus(rng *rand.Rand, r CorpusSizes) []Input {
 		}
 	}
 	// M5. truncation of the payload at every byte, size prefix consistent, on a PRNG subset of bases
-	ntr := r.n(120, 1500)
+	ntr := r.n(80, 1500)
 	for i := 0; i < ntr; i++ {
 		b := bases[rng.Intn(len(bases))]
 		if i%2 == 0 && len(handledFlex) > 0 {
@@ -292,7 +292,7 @@ func Corpus(rng *rand.Rand, r CorpusSizes) []Input {
 		add("huge_len", FrameLen(l, b.payload))
 	}
 	// N. uniform noise: raw, with a consistent size prefix, behind a valid flexible header prefix
-	for i := 0; i < r.n(6000, 300000); i++ {
+	for i := 0; i < r.n(4000, 300000); i++ {
 		n := rng.Intn(96)
 		if rng.Intn(10) == 0 {
 			n = rng.Intn(2000)
